@@ -89,8 +89,8 @@ def run(tier, seed, replay=None):
         ("ruby-k4", P + ["--mode", "enum", "--family", "ruby", "--k", 4 if q else 5, "--pieces", 8 if q else 11], N),
         ("lf-k3", P + ["--mode", "enum", "--family", "lf", "--k", 3 if q else 4, "--pieces", 19], N),
         ("selectedcontent", P + ["--mode", "selectedcontent", "--k", 3 if q else 4], N),
-        ("random", P + ["--mode", "random", "--n", 10000 if q else 400000, "--maxpieces", 14], N),
-        ("random-long-chunked", P + ["--mode", "random", "--n", 250 if q else 6000, "--maxpieces", 40, "--chunk", "some"], N),
+        ("random", P + ["--mode", "random", "--n", 10000 if q else 200000, "--maxpieces", 14], N),
+        ("random-long-chunked", P + ["--mode", "random", "--n", 250 if q else 2500, "--maxpieces", 40, "--chunk", "some"], N),
     ]
     # plans judged end to end as well (raw input -> L0 parser), not only from the recorded tokens
     e2e = {"tables", "lf-k3", "random", "random-long-chunked"} | (set() if q else {"triples", "pairs", "aaa-deep", "ark-deep"})
